@@ -157,7 +157,7 @@ ObsChanged(pre, post, nm) ==
 
 (* C12.atomic, step part, on raw observations (pre, post = name -> entry)   *)
 StepOk(pre, line, post) ==
-  \/ line.ev \in {"PriorFile", "PriorTmp"}         \* the directory's prior life
+  \/ line.ev \in {"PriorFile", "PriorTmp", "PriorEmpty"}   \* the directory's prior life
   \/ \A nm \in DOMAIN post :
        (~post[nm].dot /\ ObsChanged(pre, post, nm)) =>
           /\ line.ev = "Rename" /\ "exc" \notin DOMAIN line
@@ -195,6 +195,16 @@ ReadyEx(s, line, post, rd2) ==
   \cup E("ext.ready.presenceFlip", line.ev = "CacheNotify" /\ s.rd.cb = "pres")
   \cup E("ext.ready.lateWatch", line.ev = "ZkExists" /\ s.rd.sync1 = FALSE /\ s.n.hb > 0 /\ line.args[1])
 
+(* zero-length files of the directory's PRIOR life (PriorEmpty) are not the    *)
+(* agent's writes: as long as such an entry is still the untouched empty file *)
+(* it is left out of the "absent or complete" state clause (it stays in every *)
+(* other clause: noExtra must see it go)                                     *)
+JunkAfter(junk, line, pdir) ==
+  {nm \in junk \cup (IF line.ev = "PriorEmpty" THEN {line.args[1]} ELSE {}) :
+      nm \in DOMAIN pdir /\ ~pdir[nm].parsed /\ pdir[nm].kind = "file" /\ ~pdir[nm].dot}
+Blankless(od, line, pdir, junk) ==
+  LET j == JunkAfter(junk, line, pdir) IN [nm \in DOMAIN od \ j |-> od[nm]]
+
 Verdict(s, line, post, ag2, rd2, explained) ==
   LET od == AsDir(post.dir)
       zk == CanonZk(post.zk)
@@ -205,7 +215,7 @@ Verdict(s, line, post, ag2, rd2, explained) ==
       \* instance whose manifest exists stays without a cache file
       selfexc == line.ev = "SyncExc" /\ ~line.injected /\ ~ag2.disturbed
   IN [fail |->
-        F("C12.atomic", AtomicState(od) /\ StepOk(s.obs, line, post.dir))
+        F("C12.atomic", AtomicState(Blankless(od, line, post.dir, s.junk)) /\ StepOk(s.obs, line, post.dir))
         \cup (IF end THEN F("C12.noExtra", NoExtra(od, ag2.expected)) ELSE {})
         \cup (IF end \/ selfexc
               THEN F("C12.present", Present(od, zk, ag2.expected \ ag2.touched)) ELSE {})
@@ -225,6 +235,7 @@ Verdict(s, line, post, ag2, rd2, explained) ==
         \cup E("refresh", calm /\ ag2.start /\ \E a \in ag2.stale0 :
                               a \in DOMAIN zk.pl /\ a \in DOMAIN zk.man)
         \cup E("crash", line.ev = "Crash")
+        \cup E("blank", line.ev = "Unlink" /\ line.args[1] \in s.junk)
         \cup E("crashTmp", line.ev = "Crash" /\ \E nm \in DOMAIN post.dir :
                                post.dir[nm].dot /\ nm \notin s.ag.tmps0 /\ nm # ReadyName)
         \cup E("ioerr", "exc" \in DOMAIN line /\ line.ev # "SyncExc")
@@ -239,7 +250,10 @@ TInit == /\ t \in DOMAIN Traces
          /\ i = 1
          /\ st = [zk |-> CanonZk(L1.post.zk), dir |-> AsDir(L1.post.dir),
                  ag |-> [Ag0 EXCEPT !.pc = L1.ag.pc, !.first = L1.ag.first],
-                 rd |-> Rd0, n |-> St0.n, okstep |-> TRUE, obs |-> L1.post.dir]
+                 rd |-> Rd0, n |-> St0.n, okstep |-> TRUE, obs |-> L1.post.dir,
+                 \* zero-length prior files created before the recorded part of the history began
+                 junk |-> {nm \in SetOf(Get(L1, "blank0", <<>>)) :
+                             nm \in DOMAIN L1.post.dir /\ ~L1.post.dir[nm].parsed}]
 
 TNext == /\ i < Len(Traces[t].lines)
          /\ i' = i + 1
@@ -263,7 +277,8 @@ TNext == /\ i < Len(Traces[t].lines)
             IN /\ st' = [zk |-> CanonZk(post.zk), dir |-> Adopt(pred, explained, post),
                          ag |-> ag2, rd |-> rd2,
                          n |-> IF explained THEN pred.n ELSE s.n,
-                         okstep |-> TRUE, obs |-> post.dir]
+                         okstep |-> TRUE, obs |-> post.dir,
+                         junk |-> JunkAfter(s.junk, line, post.dir)]
                /\ PrintT(ToJson([tid |-> Traces[t].tid, i |-> i, fail |-> v.fail, ex |-> v.ex]))
 
 TraceSpec == TInit /\ [][TNext]_<<t, i, st>>
